@@ -161,8 +161,10 @@ Definition pad_kernel (l kw : nat) (w : nat -> nat -> Z) (k ch : nat) : Z :=
    new hardware padding (folded positions) * n = old hardware padding + zeros added in front of the kernel *)
 Definition fold_conditions (stride n s width kw l r pad_old pad_new_folded : Z) : bool :=
   (0 <? n) && (stride =? n * s) && (width mod n =? 0) && ((kw + l + r) mod n =? 0) && (pad_new_folded * n =? pad_old + l).
-(* Vela's leading SAME padding of a convolution: needed_total_padding // 2 *)
+(* Vela's SAME padding of a convolution (graph_optimiser_util.needed_total_padding, as written) and the reference's *)
 Definition needed_total_padding (input stride kernel : Z) : Z :=
+  if input mod stride =? 0 then Z.max (kernel - stride) 0 else Z.max (kernel - input mod stride) 0.
+Definition tflite_total_padding (input stride kernel : Z) : Z :=
   let out := (input + stride - 1) / stride in Z.max ((out - 1) * stride + kernel - input) 0.
 Definition same_lead_pad (input stride kernel : Z) : Z := needed_total_padding input stride kernel / 2.
 
